@@ -94,7 +94,9 @@ def analyse(ctx, want_prefix: str):
     ctx.analysed["list_shape_scenarios"] = sc_stats
     if not st.ok:
         ob(want_prefix + ".0", f"{Q}: structure not recognised", core.UNDECIDED, fwhere,
-           "the pass/scan structure of compact was not found; only the list-shape scenarios above say anything about it")
+           "the pass/scan structure of compact was not found; only the list-shape scenarios say anything about it: "
+           f"{sc_stats.get('decided', 0)} decided, {sc_stats.get('not_modelled', 0)} not followed" +
+           (f" (first reason: {(sc_stats.get('reasons') or [sc_stats.get('stopped', '')])[0]})" if (sc_stats.get('reasons') or sc_stats.get('stopped')) else ""))
         return None
     interp, consts = su.interp, su.consts
     MAX = consts.MAX
